@@ -190,9 +190,9 @@ CLAIMED.update({
               'pause future), C05_same_result_partial (when the run with pauses has terminated, the run without any pause/play has '
               'terminated in the same state object with the same trace of step functions and arguments, context, future, logs), '
               'C05_same_point_when_quiet_partial, C05_reference_history_is_erasure; for every program and every history of ticks, '
-              'pause and play anywhere, and resume / awaitable completion / awaitable-done events while no pause is in effect; '
+              'pause and play anywhere, and resume / awaitable completion / awaitable-done / call_soon events while no pause is in effect; '
               'hypothesis: no tick of the reference run exhausts the fuel of the model loop. Wake-ups arriving while the process is '
-              'held, histories with kill / fail / cancel / call_soon (def C05_transparent_full) and outputs are decided by the '
+              'held, histories with kill / fail / cancel / failing callbacks (def C05_transparent_full) and outputs are decided by the '
               'correspondence and the monitor c05-transparent against the uninterrupted run of the same program.'),
     'C06': pm('Protocol theorems for every configuration: C06_resume_accepted, C06_resume_parked, C06_later_resume_ignored, '
               'C06_parked_not_overwritten, C06_wake_rearms, C06_retracted_pause_keeps_wakeup, with C13_wait_resume_exact for the '
